@@ -38,10 +38,11 @@ impl Export {
     /// The spreadsheet in memory, in the given layout.
     pub fn range(&self, layout: &[Option<String>], numeric: &[String]) -> Range {
         let mut r = Range::new((0, 0), (self.rows.len() + 1, layout.len().max(1)));
-        for (j, c) in layout.iter().enumerate() { if let Some(n) = c { r.set_value((0, j as u32), DataType::String(n.clone())); } }
+        // a name starting with \u{1} stands for a header cell that is not text: a number (year) or a boolean
+        for (j, c) in layout.iter().enumerate() { if let Some(n) = c { r.set_value((0, j as u32), match n.strip_prefix('\u{1}') { Some("TRUE") => DataType::Bool(true), Some(x) => DataType::Float(x.parse().unwrap_or(0.0)), None => DataType::String(n.clone()) }); } }
         for (i, a) in self.rows.iter().enumerate() {
             for (j, c) in layout.iter().enumerate() {
-                let v = match c { Some(n) => a.cells.get(n).cloned().unwrap_or_else(|| if n.starts_with("Extra") { format!("x{i}") } else { String::new() }), None => format!("junk{i}") };
+                let v = match c { Some(n) => a.cells.get(n).cloned().unwrap_or_else(|| if n.starts_with("Extra") || n.starts_with('\u{1}') { format!("x{i}") } else { String::new() }), None => format!("junk{i}") };
                 let cell = if v.is_empty() { DataType::Empty } else if c.as_ref().map(|n| numeric.contains(n)).unwrap_or(false) { match v.parse::<f64>() { Ok(f) => DataType::Float(f), Err(_) => DataType::String(v) } } else { DataType::String(v) };
                 r.set_value(((i + 1) as u32, j as u32), cell);
             }
@@ -96,6 +97,8 @@ pub fn export_strategy() -> BoxedStrategy<Export> {
         for k in 0..((lay >> 1) % 3) as usize { let pos = seeds[14 + k] as usize % (layout.len() + 1); layout.insert(pos, Some(format!("Extra {k}"))); }
         if (lay >> 3) % 3 == 0 { let pos = seeds[20] as usize % (layout.len() + 1); layout.insert(pos, None); }
         if (lay >> 5) % 4 == 0 { let pos = seeds[21] as usize % (layout.len() + 1); layout.insert(pos, None); }
+        // an unrelated column whose header cell is a number or a boolean
+        if seeds[22] % 4 == 0 { let pos = seeds[23] as usize % (layout.len() + 1); layout.insert(pos, Some(if seeds[22] % 8 == 0 { "\u{1}TRUE".to_string() } else { "\u{1}2023".to_string() })); }
         let numeric_cols: Vec<String> = if (lay >> 7) % 2 == 0 { vec![] } else { vec!["Quantity".into(), "Price".into(), "Commission".into(), "Net Amount".into(), "Gross Amount".into()] };
         Export { rows, layout, numeric_cols, no_sort }
     }).boxed()
@@ -161,7 +164,7 @@ fn convert(e: &Export, layout: &[Option<String>]) -> Result<Result<Vec<BrokerTx>
 
 fn check(e: &Export, obs: &mut Obs) -> Verdict {
     let show = || format!("layout: {:?}\nnumeric cells: {:?}\nrows:\n{}", e.layout.iter().map(|c| c.clone().unwrap_or("<blank>".into())).collect::<Vec<_>>(), e.numeric_cols, e.rows.iter().map(|a| HEADERS.iter().map(|h| a.cells.get(*h).cloned().unwrap_or_default()).collect::<Vec<_>>().join(" | ")).collect::<Vec<_>>().join("\n"));
-    let blank = e.layout.iter().any(|c| c.is_none());
+    let blank = e.layout.iter().any(|c| c.as_ref().map(|n| n.starts_with('\u{1}')).unwrap_or(true));
     let txs = match convert(e, &e.layout) {
         Err(p) => return Verdict::Fail(format!("panic in the converter: {}\n{}", p.sig(), show())),
         Ok(Err((_, errs))) => {
@@ -240,7 +243,7 @@ fn xlsx_end_to_end(tier: Tier, seed: u64, idx: u64, of: u64, stats: &mut Stats) 
         let path = dir.join(format!("export{k}.xlsx"));
         let mut wb = rust_xlsxwriter::Workbook::new();
         let ws = wb.add_worksheet();
-        for (j, c) in e.layout.iter().enumerate() { if let Some(nm) = c { let _ = ws.write_string(0, j as u16, nm); } }
+        for (j, c) in e.layout.iter().enumerate() { if let Some(nm) = c { match nm.strip_prefix('\u{1}') { Some("TRUE") => { let _ = ws.write_boolean(0, j as u16, true); } Some(x) => { let _ = ws.write_number(0, j as u16, x.parse::<f64>().unwrap_or(0.0)); } None => { let _ = ws.write_string(0, j as u16, nm); } } } }
         for (i, a) in e.rows.iter().enumerate() { for (j, c) in e.layout.iter().enumerate() { if let Some(nm) = c { let v = a.cells.get(nm).cloned().unwrap_or_else(|| format!("x{i}")); if v.is_empty() { continue; } if e.numeric_cols.contains(nm) { if let Ok(f) = v.parse::<f64>() { let _ = ws.write_number((i + 1) as u32, j as u16, f); continue; } } let _ = ws.write_string((i + 1) as u32, j as u16, &v); } } }
         if wb.save(&path).is_err() { stats.infra_errors.push("cannot write xlsx".into()); break; }
         let run = |extra: &[&str]| -> Result<(bool, String, String), crate::engine::PanicInfo> {
@@ -280,7 +283,7 @@ fn xlsx_end_to_end(tier: Tier, seed: u64, idx: u64, of: u64, stats: &mut Stats) 
 }
 
 pub fn def() -> PropDef {
-    let mut d = PropDef::new("C18", "well-formed Questrade activity exports: 1-25 activities over BUY, SELL, DIS, LIQ, DIV, FXT pairs (either leg first) and the documented ignored codes; margin / TFSA / RRSP accounts; CAD and USD; signed quantities and commissions as Questrade writes them; the H038778 alias; x column layout (permutation, extra named columns, one or two blank-headed columns, numeric vs string cells). In memory through office::Range -> sheet_to_txs, and end to end for a sample (real .xlsx via rust_xlsxwriter -> run_with_args -> CSV, with --no-fx / --security / --account / --usd-exchange-rate). Oracles: multiset of emitted rows = the generator's own record of trade activities and FX rows (dates, |qty|, price, |commission|, currency, registered affiliate, implied FXT rate); signed USD.FX total = USD cash flow (exact); output independent of the layout; sorted output ordered by settlement date; every row accepted by acb's parser, rate loader and Tx conversion. Non-trivial = export with a USD trade and an FXT pair, or a layout with a blank header cell. Distinct = distinct case content.");
+    let mut d = PropDef::new("C18", "well-formed Questrade activity exports: 1-25 activities over BUY, SELL, DIS, LIQ, DIV, FXT pairs (either leg first) and the documented ignored codes; margin / TFSA / RRSP accounts; CAD and USD; signed quantities and commissions as Questrade writes them; the H038778 alias; x column layout (permutation, extra named columns, one or two blank-headed columns, a column headed by a number or a boolean cell, numeric vs string cells). In memory through office::Range -> sheet_to_txs, and end to end for a sample (real .xlsx via rust_xlsxwriter -> run_with_args -> CSV, with --no-fx / --security / --account / --usd-exchange-rate). Oracles: multiset of emitted rows = the generator's own record of trade activities and FX rows (dates, |qty|, price, |commission|, currency, registered affiliate, implied FXT rate); signed USD.FX total = USD cash flow (exact); output independent of the layout; sorted output ordered by settlement date; every row accepted by acb's parser, rate loader and Tx conversion. Non-trivial = export with a USD trade and an FXT pair, or a layout with a blank or non-text header cell. Distinct = distinct case content.");
     d.assumptions = vec!["ledger-level acceptance (e.g. USD.FX over-sale) is not the converter's contract; rows are checked for row-level acceptance", "numeric cells go through the same f64 -> Decimal conversion on both sides"];
     d.subs.push(Box::new(Sub::<Export> { name: "sheet", cases_quick: 20_000, cases_thorough: 800_000, strategy: Box::new(|_| export_strategy()), to_json: Export::to_json, from_json: Export::from_json, check }));
     d.extra = Some(xlsx_end_to_end);
